@@ -555,6 +555,229 @@ theorem pres_call {ev : XExpr → XM XLoc} (hev : ∀ e, Pres (ev e)) (fn : XFun
   | haz x => rw [h1] at h; cases h
   | unmodelled => rw [h1] at h; cases h
 
+/-! ### the pool invariant: no pool slot carries LVALUE (C05R4) -/
+
+/-- `Context::allocate` builds its Value from an rvalue (flags of a fresh value), `swap(Value&&)` into a temporary copies those
+flags, the default `Cell` has a clear flag: no cell of the temporary pool ever carries LVALUE. -/
+def PoolInv (σ : Store) : Prop := ∀ c ∈ σ.pool, c.lv = false
+
+def PPool {α} (m : XM α) : Prop := ∀ s a s', PoolInv s.st → m s = .ok (a, s') → PoolInv s'.st
+
+theorem PPool.pure {α} (a : α) : PPool (XM.pure a) := by
+  intro s b s' hi h; simp only [XM.pure] at h; cases h; exact hi
+
+theorem PPool.bind {α β} {m : XM α} {f : α → XM β} (hm : PPool m) (hf : ∀ a, PPool (f a)) : PPool (XM.bind m f) := by
+  intro s b s' hi h
+  simp only [XM.bind] at h
+  cases h1 : m s with
+  | ok p1 =>
+    obtain ⟨a, s1⟩ := p1
+    rw [h1] at h
+    exact hf a s1 b s' (hm s a s1 hi h1) h
+  | err c x => rw [h1] at h; cases h
+  | haz x => rw [h1] at h; cases h
+  | unmodelled => rw [h1] at h; cases h
+
+theorem PPool.lift {α} (r : Res α) : PPool (XM.lift r) := by
+  intro s b s' hi h; cases r <;> simp only [XM.lift] at h <;> cases h; exact hi
+
+theorem PPool.fail {α} (r : Res Unit) : PPool (XM.fail r : XM α) := by
+  intro s b s' _ h; cases r <;> simp only [XM.fail] at h <;> cases h
+
+theorem PPool.ite {α} {c : Prop} [Decidable c] {m1 m2 : XM α} (h1 : PPool m1) (h2 : PPool m2) : PPool (if c then m1 else m2) := by
+  split <;> assumption
+
+theorem PPool.of_same {α} {m : XM α} (h : ∀ s a s', m s = .ok (a, s') → s'.st.pool = s.st.pool) : PPool m := by
+  intro s a s' hi hm
+  unfold PoolInv
+  rw [h s a s' hm]; exact hi
+
+theorem poolInv_alloc (σ : Store) (v : Val) (h : PoolInv σ) : PoolInv (alloc σ v).2 := by
+  intro c hc
+  simp only [alloc] at hc
+  split at hc
+  · rcases List.mem_or_eq_of_mem_set hc with h1 | h1
+    · exact h c h1
+    · rw [h1]
+  · simp only [List.mem_append, List.mem_replicate, List.mem_singleton] at hc
+    rcases hc with (h1 | ⟨_, h1⟩) | h1
+    · exact h c h1
+    · rw [h1]; rfl
+    · rw [h1]
+
+theorem poolInv_setX {σ σ' : Store} {x : XLoc} {v : Val} (hs : σ.setX x v = some σ') (h : PoolInv σ) : PoolInv σ' := by
+  unfold Store.setX at hs
+  cases hr : σ.root? x.root with
+  | none => rw [hr] at hs; cases hs
+  | some c0 =>
+    rw [hr] at hs
+    simp only at hs
+    cases hp : c0.val.setP x.path v with
+    | none => rw [hp] at hs; cases hs
+    | some v' =>
+      rw [hp] at hs
+      cases hs
+      cases hx : x.root with
+      | var i => exact h
+      | cst i => exact h
+      | tmp i =>
+        rw [hx] at hr
+        intro c hc
+        simp only [Store.set] at hc
+        rcases List.mem_or_eq_of_mem_set hc with h1 | h1
+        · exact h c h1
+        · rw [h1]
+          simp only [Store.root?] at hr
+          exact h c0 (List.mem_of_getElem? hr)
+
+theorem ppool_xget (x : XLoc) : PPool (xget x) := PPool.of_same (by
+  intro s a s' h; simp only [xget] at h; split at h <;> cases h; rfl)
+theorem ppool_logLen : PPool logLen := PPool.of_same (by intro s a s' h; simp only [logLen] at h; cases h; rfl)
+theorem ppool_checkHeld (x : XLoc) (n : Nat) : PPool (checkHeld x n) := PPool.of_same (by
+  intro s a s' h; simp only [checkHeld] at h; split at h <;> cases h; rfl)
+theorem ppool_xendStatement : PPool xendStatement := PPool.of_same (by
+  intro s a s' h; simp only [xendStatement] at h; cases h; rfl)
+theorem ppool_xsetVar (i : Nat) (v : Val) : PPool (xsetVar i v) := PPool.of_same (by
+  intro s a s' h; simp only [xsetVar] at h; split at h <;> cases h; rfl)
+
+theorem ppool_xalloc (v : Val) : PPool (xalloc v) := by
+  intro s a s' hi h; simp only [xalloc] at h; cases h; exact poolInv_alloc _ _ hi
+
+theorem ppool_xlval1 (v : Val) (a : XLoc) : PPool (xlval1 v a) := by
+  intro s r s' hi h
+  simp only [xlval1] at h
+  split at h
+  · split at h
+    · exact ppool_xalloc v s r s' hi h
+    · split at h
+      · rename_i hs; cases h; exact poolInv_setX hs hi
+      · cases h
+  · cases h
+
+theorem ppool_xlval2 (v : Val) (a b : XLoc) : PPool (xlval2 v a b) := by
+  intro s r s' hi h
+  simp only [xlval2] at h
+  split at h
+  · split at h
+    · exact ppool_xlval1 v b s r s' hi h
+    · split at h
+      · rename_i hs; cases h; exact poolInv_setX hs hi
+      · cases h
+  · cases h
+
+theorem ppool_xplace (p : Place) (v : Val) (x1 x2 : XLoc) : PPool (xplace p v x1 x2) := by
+  cases p <;> simp only [xplace]
+  · exact PPool.pure _
+  · exact PPool.pure _
+  · exact ppool_xlval1 _ _
+  · exact ppool_xlval2 _ _ _
+
+theorem ppool_xplaceBi (p : BiPlace) (v : Val) (xs : List XLoc) : PPool (xplaceBi p v xs) := by
+  unfold xplaceBi
+  split
+  · exact PPool.pure _
+  · exact ppool_xalloc _
+  · exact ppool_xlval1 _ _
+  · exact ppool_xlval2 _ _ _
+  · exact PPool.fail _
+
+theorem ppool_takeArg (x : XLoc) : PPool (takeArg x) := by
+  intro s r s' hi h
+  simp only [takeArg] at h
+  split at h
+  · split at h
+    · cases h; exact hi
+    · split at h
+      · rename_i hs; cases h; exact poolInv_setX hs hi
+      · cases h
+  · cases h
+
+theorem ppool_wrRecv (x : XLoc) (v : Val) : PPool (wrRecv x v) := by
+  intro s r s' hi h
+  simp only [wrRecv] at h
+  split at h
+  · rename_i hs; cases h; exact poolInv_setX hs hi
+  · cases h
+
+theorem ppool_xstoreVar (i : Nat) (x : XLoc) : PPool (xstoreVar i x) := by
+  unfold xstoreVar
+  split
+  · exact PPool.pure _
+  · exact PPool.bind (ppool_takeArg x) (fun v => ppool_xsetVar i v)
+
+theorem ppool_finishInPlace (x : XLoc) (old res recv' : Val) (b : Bool) : PPool (finishInPlace x old res recv' b) := by
+  unfold finishInPlace
+  split
+  · exact ppool_xalloc _
+  · exact PPool.bind (ppool_wrRecv _ _) (fun _ => PPool.pure _)
+
+theorem ppool_recvCell (r : XExpr) (x : XLoc) : PPool (recvCell r x) := by
+  unfold recvCell
+  refine PPool.bind (ppool_xget x) (fun c => ?_)
+  split
+  · exact ppool_xalloc _
+  · exact PPool.pure _
+
+theorem ppool_atResult (x : XLoc) (recv a0 res : Val) : PPool (atResult x recv a0 res) := by
+  unfold atResult
+  split
+  · exact PPool.pure _
+  · exact ppool_xalloc _
+
+theorem ppool_tabStep {ev : XM XLoc} (hev : PPool ev) (t : Ty) : ∀ k acc, PPool (tabStep ev t k acc)
+  | 0, acc => by simp only [tabStep]; exact PPool.pure _
+  | k + 1, acc => by
+    simp only [tabStep]
+    refine PPool.bind hev (fun x => PPool.bind (ppool_xget x) (fun c => ?_))
+    split
+    · exact PPool.fail _
+    · exact PPool.bind (ppool_takeArg x) (fun v => ppool_tabStep hev t k _)
+
+theorem ppool_tupStep {ev : XExpr → XM XLoc} (hev : ∀ e, PPool (ev e)) : ∀ as acc, PPool (tupStep ev as acc)
+  | [], acc => by simp only [tupStep]; exact PPool.pure _
+  | a :: as, acc => by
+    simp only [tupStep]
+    refine PPool.bind (hev a) (fun x => PPool.bind (ppool_xget x) (fun c => ?_))
+    split
+    · exact PPool.fail _
+    · split
+      · exact PPool.fail _
+      · exact PPool.bind (ppool_takeArg x) (fun v => ppool_tupStep hev as _)
+
+theorem ppool_bindArgs {ev : XExpr → XM XLoc} (hev : ∀ e, PPool (ev e)) : ∀ as k callee, PPool (bindArgs ev as k callee)
+  | [], k, callee => by simp only [bindArgs]; exact PPool.pure _
+  | a :: as, k, callee => by
+    simp only [bindArgs]
+    refine PPool.bind (hev a) (fun x => PPool.bind (ppool_takeArg x) (fun v => ?_))
+    split
+    · exact ppool_bindArgs hev as _ _
+    · exact PPool.fail _
+
+theorem ppool_biArgs {ev : XExpr → XM XLoc} (hev : ∀ e, PPool (ev e)) : ∀ as acc, PPool (biArgs ev as acc)
+  | [], acc => by simp only [biArgs]; exact PPool.pure _
+  | a :: as, acc => by
+    simp only [biArgs]
+    exact PPool.bind (hev a) (fun x => PPool.bind ppool_logLen (fun n => ppool_biArgs hev as _))
+
+theorem ppool_biHeld : ∀ xn, PPool (biHeld xn)
+  | [] => by simp only [biHeld]; exact PPool.pure _
+  | (x, n) :: rest => by
+    simp only [biHeld]
+    exact PPool.bind (ppool_checkHeld x n) (fun _ => ppool_biHeld rest)
+
+theorem ppool_xgets : ∀ xs, PPool (xgets xs)
+  | [] => by simp only [xgets]; exact PPool.pure _
+  | x :: rest => by
+    simp only [xgets]
+    exact PPool.bind (ppool_xget x) (fun c => PPool.bind (ppool_xgets rest) (fun vs => PPool.pure _))
+
+/-- a call runs in the callee's own store: the caller's pool comes back as it was, whatever the callee did -/
+theorem ppool_inCallee {α} (callee : Store) (m : XM α) : PPool (inCallee callee m) := PPool.of_same (by
+  intro s a s' h
+  simp only [inCallee] at h
+  split at h <;> cases h
+  rfl)
+
 /-! ### where a result lives: the root of the returned location -/
 
 def IsTmp : Loc → Prop
